@@ -429,7 +429,7 @@ func (c *canon) val(v ssa.Value, d int) string {
 				}
 				return c.val(a.X, d) + "." + fieldName(a.X.Type(), a.Field)
 			case *ssa.IndexAddr:
-				return c.val(a.X, d) + c.index(a.Index, d)
+				return c.val(a.X, d) + c.indexOf(a.X, a.Index, d)
 			case *ssa.Alloc:
 				if p := spilledParam(a); p != nil && len(storesTo(a)) == 1 {
 					return fmt.Sprintf("p%d", paramIndex(p))
@@ -480,9 +480,9 @@ func (c *canon) val(v ssa.Value, d int) string {
 	case *ssa.Field:
 		return c.val(x.X, d) + "." + fieldName(x.X.Type(), x.Field)
 	case *ssa.IndexAddr:
-		return "&" + c.val(x.X, d) + c.index(x.Index, d)
+		return "&" + c.val(x.X, d) + c.indexOf(x.X, x.Index, d)
 	case *ssa.Index:
-		return c.val(x.X, d) + c.index(x.Index, d)
+		return c.val(x.X, d) + c.indexOf(x.X, x.Index, d)
 	case *ssa.Lookup:
 		return c.val(x.X, d) + "[" + c.val(x.Index, d-1) + "]"
 	case *ssa.Slice:
@@ -699,6 +699,20 @@ func isDownCounter(ph *ssa.Phi) ssa.Value {
 		of = call.Call.Args[0]
 	}
 	return of
+}
+
+// indexOf: like index, but recognises `x[len(x)-1]` as "[last]".
+func (c *canon) indexOf(base, idx ssa.Value, d int) string {
+	if bo, ok := Strip(idx).(*ssa.BinOp); ok && bo.Op == token.SUB {
+		if n, ok := ConstInt(bo.Y); ok && n == 1 {
+			if call, ok := bo.X.(*ssa.Call); ok {
+				if b, ok := call.Call.Value.(*ssa.Builtin); ok && b.Name() == "len" && c.val(call.Call.Args[0], d-1) == c.val(base, d-1) {
+					return "[last]"
+				}
+			}
+		}
+	}
+	return c.index(idx, d)
 }
 
 func (c *canon) index(idx ssa.Value, d int) string {
